@@ -79,7 +79,7 @@ Definition enc_coldef (cd : coldef) (field_list : option (option bytes)) : bytes
   match field_list with
   | None => []
   | Some None => uint_len 0
-  | Some (Some v) => uint_len (len v) ++ str_len v
+  | Some (Some v) => str_len v          (* ONE length-encoded string (the protocol's "default values") *)
   end.
 
 Definition rd_str (d : bytes) := read_str_len d.
